@@ -522,6 +522,19 @@ def nonzero_test(g, totals):
     return n in totals
 
 
+def value_leaves(t):
+    """Every value a term can take: arms of selections, returns of try statements, arms of try-assigned variables."""
+    if not isinstance(t, tuple) or not t:
+        return [t]
+    if t[0] == "gate":
+        return value_leaves(t[2]) + value_leaves(t[3])
+    if t[0] == "tryret":
+        return [x for r in t[2] for x in value_leaves(r)]
+    if t[0] == "tryphi" and len(t) >= 4:
+        return [x for r in t[3] for x in value_leaves(r)]
+    return [t]
+
+
 def nonempty_test(g, it):
     """Is the guard just the test that the iterable of the loop it encloses is non-empty (`if xs:` /
     `if len(xs) > 0:` around `for x in xs`)?  Such a guard never skips an iteration."""
